@@ -1,2 +1,296 @@
-/- placeholder: the C03 driver is not built yet -/
-def main : IO Unit := IO.println "C03: driver not built yet"
+/- C03 line-protocol driver: prints `model <TAB> spec` for each case line.
+
+   new own=sv|iv|st|ss|fs|var|opt|exp|fn kind=cm|mo|co cap=N       two default-constructed owners A (t=0), B (t=1)
+   <op> t=0|1 args...                                             one member call on the target (the other object is the source)
+   detail                                                         model only: slot maps and cumulative event counts (spec column `*`)
+   end                                                            both owners go out of scope
+
+   every op line answers   e=<-|error> t=<live locals> x=<misplaced slots> A=<owner> B=<owner>
+   owner := [v,..] (container; M = moved-from element) | ix:v (variant-like / function; `-` no value) | u (moved-from owner)
+   `end` answers           e=<-|error> live=<objects alive> bal=<1 iff #constructed = #destroyed>                    -/
+import Tetl.Proto
+import Tetl.C03.Session
+import Tetl.C03.Spec
+namespace Tetl.C03.Driver
+open Tetl.Proto Tetl.C03
+
+inductive Own where | sv | iv | st | ss | fs | var | opt | exp | fn
+  deriving Repr, DecidableEq, Inhabited
+
+def ownOf : String → Option Own
+  | "sv" => some .sv | "iv" => some .iv | "st" => some .st | "ss" => some .ss | "fs" => some .fs
+  | "var" => some .var | "opt" => some .opt | "exp" => some .exp | "fn" => some .fn | _ => none
+
+def kindOf : String → Option Kind
+  | "cm" => some .cm | "mo" => some .mo | "co" => some .co | _ => none
+
+def Own.isVec : Own → Bool
+  | .sv | .iv | .st | .ss | .fs => true
+  | _ => false
+
+def Own.trk : Own → Nat → Bool
+  | .opt => fun j => j == 1
+  | _ => fun _ => true
+
+def Own.nalt : Own → Nat
+  | .var => 3 | .opt => 2 | .exp => 2 | _ => 0
+
+structure Ses where
+  own : Own
+  k : Kind
+  cap : Nat
+  model : Except LErr St
+  spec : Spec.ASt
+  ended : Bool := false
+
+abbrev DState := Option Ses
+
+def fmtOpt : Option Nat → String
+  | some v => toString v
+  | none => "M"
+
+def slotAt (m : Mem) (i : Nat) : Slot := match m.slots[i]? with | some s => s | none => .dead
+
+/-- number of live slots among `cnt` slots from `lo` -/
+def liveIn (m : Mem) (lo cnt : Nat) : Nat :=
+  ((List.range cnt).filter fun i => (slotAt m (lo + i)).isLive).length
+
+/-- slots of a vector that contradict its size: dead inside `[0,n)` or alive in `[n,cap)` -/
+def misplacedVec (m : Mem) (base n cap : Nat) : Nat :=
+  ((List.range cap).filter fun i => (slotAt m (base + i)).isLive != decide (i < n)).length
+
+def misplacedAlt (trk : Nat → Bool) (m : Mem) (sl ix : Nat) : Nat :=
+  match slotAt m sl with
+  | .dead => if trk ix then 1 else 0
+  | .live ty _ => if trk ix && ty == ix then 0 else 1
+
+def misplacedFn (m : Mem) (sl c : Nat) : Nat :=
+  match slotAt m sl with
+  | .dead => if c = 0 then 0 else 1
+  | .live ty _ => if c = ty + 1 then 0 else 1
+
+def fmtVecObj (m : Mem) (base n : Nat) : String :=
+  "[" ++ ",".intercalate ((List.range n).map fun i =>
+    match slotAt m (base + i) with
+    | .live _ v => fmtOpt v
+    | .dead => "D") ++ "]"
+
+def fmtAltObj (trk : Nat → Bool) (m : Mem) (sl ix : Nat) : String :=
+  if trk ix then
+    match slotAt m sl with
+    | .live _ v => s!"{ix}:{fmtOpt v}"
+    | .dead => s!"{ix}:D"
+  else s!"{ix}:-"
+
+def fmtFnObj (m : Mem) (sl c : Nat) : String :=
+  if c = 0 then "0:-"
+  else match slotAt m sl with
+    | .live _ v => s!"{c}:{fmtOpt v}"
+    | .dead => s!"{c}:D"
+
+def fmtAObj : Spec.AObj → String
+  | .vec l => fmtNatList l
+  | .alt ix (some v) => s!"{ix}:{v}"
+  | .alt ix none => s!"{ix}:-"
+  | .unspec => "u"
+
+def isU : Spec.AObj → Bool
+  | .unspec => true
+  | _ => false
+
+def modelLine (ss : Ses) (sp : Spec.ASt) : String :=
+  match ss.model with
+  | .error e => s!"e={e.fmt}"
+  | .ok st =>
+    let m := st.mem
+    let cap := ss.cap
+    let t := liveIn m (2 * cap) (cap + 3)
+    let (x, a, b) : Nat × String × String :=
+      if ss.own.isVec then
+        (misplacedVec m 0 st.a cap + misplacedVec m cap st.b cap, fmtVecObj m 0 st.a, fmtVecObj m cap st.b)
+      else if ss.own == .fn then
+        (misplacedFn m 0 st.a + misplacedFn m 1 st.b, fmtFnObj m 0 st.a, fmtFnObj m 1 st.b)
+      else
+        (misplacedAlt ss.own.trk m 0 st.a + misplacedAlt ss.own.trk m 1 st.b,
+         fmtAltObj ss.own.trk m 0 st.a, fmtAltObj ss.own.trk m 1 st.b)
+    let a := if isU sp.a then "u" else a
+    let b := if isU sp.b then "u" else b
+    s!"e=- t={t} x={x} A={a} B={b}"
+
+def specLine (sp : Spec.ASt) : String := s!"e=- t=0 x=0 A={fmtAObj sp.a} B={fmtAObj sp.b}"
+
+def fmtSlot : Slot → String
+  | .dead => "."
+  | .live ty v => s!"{ty}:{fmtOpt v}"
+
+def detailLine (ss : Ses) : String :=
+  match ss.model with
+  | .error e => s!"e={e.fmt}"
+  | .ok st =>
+    let m := st.mem
+    let cap := ss.cap
+    let seg (lo : Nat) := "[" ++ ",".intercalate ((List.range cap).map fun i => fmtSlot (slotAt m (lo + i))) ++ "]"
+    let c := m.cnt
+    s!"A={seg 0} B={seg cap} c={c.vc},{c.cc},{c.mc},{c.ca},{c.ma},{c.d}"
+
+def tOf (l : Line) : Bool := (l.nat? "t").getD 0 == 1
+
+def parseV (l : Line) : Option VOp :=
+  let v := l.nat? "v"
+  let pos := l.nat? "pos"
+  match l.op with
+  | "push_c" => v.map .pushc
+  | "push_m" => v.map .pushm
+  | "emplace_back" => v.map .emplaceBack
+  | "try_push_c" => v.map .tryPushc
+  | "try_push_m" => v.map .tryPushm
+  | "try_emplace_back" => v.map .tryEmplaceBack
+  | "pop" => some .pop
+  | "ins_c" => do some (.insc (← pos) (← v))
+  | "ins_m" => do some (.insm (← pos) (← v))
+  | "ins_n" => do some (.insn (← pos) (← l.nat? "n") (← v))
+  | "ins_r" => do some (.insr (← pos) (← l.natList? "xs"))
+  | "emplace" => do some (.emplace (← pos) (← v))
+  | "erase_at" => pos.map .eraseAt
+  | "erase_range" => do some (.eraseRange (← l.nat? "f") (← l.nat? "l"))
+  | "clear" => some .clear
+  | "resize" => (l.nat? "n").map .resize
+  | "resize_v" => do some (.resizev (← l.nat? "n") (← v))
+  | "assign_n" => do some (.assignn (← l.nat? "n") (← v))
+  | "assign_r" => (l.natList? "xs").map .assignr
+  | "erase_if" => do some (.eraseIf (← l.nat? "md") (← l.nat? "r"))
+  | "cctor" => some .cctor
+  | "mctor" => some .mctor
+  | "cassign" => some .cassign
+  | "massign" => some .massign
+  | "cassign_self" => some .cassignSelf
+  | "swap" => some .swap
+  | "swap_self" => some .swapSelf
+  | _ => none
+
+def parseS (l : Line) : Option SOp :=
+  let v := l.nat? "v"
+  match l.op with
+  | "sins_c" => v.map .insc
+  | "sins_m" => v.map .insm
+  | "semplace" => v.map .emplace
+  | "erase_key" => v.map .eraseKey
+  | "erase_at" => (l.nat? "pos").map .eraseAt
+  | "erase_range" => do some (.eraseRange (← l.nat? "f") (← l.nat? "l"))
+  | "clear" => some .clear
+  | "cctor" => some .cctor
+  | "mctor" => some .mctor
+  | "cassign" => some .cassign
+  | "massign" => some .massign
+  | "cassign_self" => some .cassignSelf
+  | "swap" => some .swap
+  | "swap_self" => some .swapSelf
+  | "extract" => some .extract
+  | _ => none
+
+def parseX (l : Line) : Option XOp :=
+  let v := l.nat? "v"
+  let j := l.nat? "j"
+  match l.op with
+  | "vemplace" => do some (.emplace (← j) (← v))
+  | "vemplace_c" => do some (.emplaceCopy (← j) (← v))
+  | "vemplace_m" => do some (.emplaceMove (← j) (← v))
+  | "oassign_c" => v.map .optAssignCopy
+  | "oassign_m" => v.map .optAssignMove
+  | "reset" => some .reset
+  | "cctor" => some .cctor
+  | "mctor" => some .mctor
+  | "cassign" => some .cassign
+  | "massign" => some .massign
+  | "cassign_self" => some .cassignSelf
+  | "swap" => some .swap
+  | "swap_self" => some .swapSelf
+  | "use" => some .use
+  | "vassign_own" => some .assignOwn
+  | _ => none
+
+def parseF (l : Line) : Option FOp :=
+  let v := l.nat? "v"
+  let j := l.nat? "j"
+  match l.op with
+  | "fctor_c" => do some (.ctorCopy (← j) (← v))
+  | "fctor_m" => do some (.ctorMove (← j) (← v))
+  | "fassign_c" => do some (.assignCopy (← j) (← v))
+  | "fassign_m" => do some (.assignMove (← j) (← v))
+  | "reset" => some .reset
+  | "cctor" => some .cctor
+  | "mctor" => some .mctor
+  | "cassign" => some .cassign
+  | "massign" => some .massign
+  | "cassign_self" => some .cassignSelf
+  | "massign_self" => some .massignSelf
+  | "swap" => some .swap
+  | "swap_self" => some .swapSelf
+  | "invoke" => some .invoke
+  | _ => none
+
+def bindSt (m : Except LErr St) (f : St → Except LErr St) : Except LErr St :=
+  match m with
+  | .error e => .error e
+  | .ok s => f s
+
+/-- one operation line on both sides; `none` = the line does not parse for this owner -/
+def opStep (ss : Ses) (l : Line) : Option Ses :=
+  let t := tOf l
+  match ss.own with
+  | .sv | .st => (parseV l).map fun op =>
+      { ss with model := bindSt ss.model (fun s => vstep .sv ss.k ss.cap s t op), spec := Spec.vstep ss.cap ss.spec t op }
+  | .iv => (parseV l).map fun op =>
+      { ss with model := bindSt ss.model (fun s => vstep .iv ss.k ss.cap s t op), spec := Spec.vstep ss.cap ss.spec t op }
+  | .ss => (parseS l).map fun op =>
+      { ss with model := bindSt ss.model (fun s => sstep .ss ss.k ss.cap s t op), spec := Spec.sstep ss.cap ss.spec t op }
+  | .fs => (parseS l).map fun op =>
+      { ss with model := bindSt ss.model (fun s => sstep .fs ss.k ss.cap s t op), spec := Spec.sstep ss.cap ss.spec t op }
+  | .var | .opt | .exp => (parseX l).map fun op =>
+      { ss with model := bindSt ss.model (fun s => xstep ss.k ss.own.trk s t op), spec := Spec.xstep ss.own.trk ss.spec t op }
+  | .fn => (parseF l).map fun op =>
+      { ss with model := bindSt ss.model (fun s => fstep ss.k s t op), spec := Spec.fstep ss.spec t op }
+
+def step (st : DState) (l : Line) : DState × String :=
+  let bad := (st, "bad-op\tbad-op")
+  match l.op with
+  | "new" =>
+    match (l.str? "own").bind ownOf, (l.str? "kind").bind kindOf, l.nat? "cap" with
+    | some own, some k, some cap =>
+      let cap := if own.isVec then cap else 1
+      let (m, sp) : St × Spec.ASt :=
+        if own.isVec then (St.init cap 0 0, { a := .vec [], b := .vec [] })
+        else if own == .fn then (St.init 1 0 0, { a := .alt 0 none, b := .alt 0 none })
+        else
+          let o : Spec.AObj := .alt 0 (if own.trk 0 then some 0 else none)
+          (xinit own.trk, { a := o, b := o })
+      let ss : Ses := { own := own, k := k, cap := cap, model := .ok m, spec := sp }
+      (some ss, modelLine ss sp ++ "\t" ++ specLine sp)
+    | _, _, _ => bad
+  | "detail" =>
+    match st with
+    | some ss => (st, detailLine ss ++ "\t*")
+    | none => bad
+  | "end" =>
+    match st with
+    | some ss =>
+      let m' := bindSt ss.model fun s =>
+        if ss.own.isVec then vfinish ss.cap s
+        else if ss.own == .fn then ffinish s
+        else xfinish ss.own.trk s
+      let ms := match m' with
+        | .error e => s!"e={e.fmt}"
+        | .ok s => s!"e=- live={s.mem.liveCount} bal={fmtBool (s.mem.cnt.constructed == s.mem.cnt.d)}"
+      (some { ss with model := m', ended := true }, ms ++ "\te=- live=0 bal=1")
+    | none => bad
+  | _ =>
+    match st with
+    | some ss =>
+      match opStep ss l with
+      | some ss' => (some ss', modelLine ss' ss'.spec ++ "\t" ++ specLine ss'.spec)
+      | none => bad
+    | none => bad
+
+end Tetl.C03.Driver
+
+def main : IO Unit := Tetl.Proto.runDriver (none : Tetl.C03.Driver.DState) Tetl.C03.Driver.step
